@@ -124,6 +124,19 @@ def constructed(ctx):
     idx = max(i for i, ln in enumerate(both) if side(ln))
     both = both[:idx + 1] + b + both[idx + 1:]
     out.append(("alt-rotamers-AB", C.join(both + [C.TER])))
+    # a disulfide that exists in one alternate location only: the SG of one cysteine has a second position 2.2 A away
+    ss = C.chain_lines("3SGB", "E", 12, 4) + [C.TER] + C.rename_chain(C.chain_lines("3SGB", "E", 32, 4), "E", "F") + [C.TER]
+    ssalt = []
+    sgs = [pdbio.parse_line(ln) for ln in ss if C.is_atom(ln) and ln[17:20] == "CYS" and ln[12:16].strip() == "SG"]
+    away = [sgs[0].x - sgs[1].x, sgs[0].y - sgs[1].y, sgs[0].z - sgs[1].z]       # from the partner's sulfur to this one
+    for ln in ss:
+        if C.is_atom(ln) and ln[21] == "E" and ln[17:20] == "CYS" and ln[12:16].strip() == "SG":
+            r = pdbio.parse_line(ln)
+            ssalt.append(ln[:16] + "A" + ln[17:])
+            ssalt.append(pdbio.set_xyz(ln[:16] + "B" + ln[17:], r.x + away[0], r.y + away[1], r.z + away[2]))   # 4.1 A apart
+        else:
+            ssalt.append(ln)
+    out.append(("disulfide-in-altA-only", C.join(ssalt)))
     # whole terminal residues in two alternate locations (their N / OXT atoms carry alt-loc labels too)
     ft = C.chain_lines("1FTJ-Chain-A", "A", 0, 5)
     out.append(("nterm-residue-altAB", C.join(C.add_altloc(ft, ids_of(ft)[0], delta=(400, 300, -200), backbone=()) + [C.TER])))
